@@ -180,6 +180,9 @@ def norm(tree, ord=2):
     """
     from jax.numpy.linalg import norm
 
+    if ord == 0:  # number of non-zero entries; not a norm of leaf-norms
+        return jnp.sum(jnp.array([jnp.sum(x != 0) for x in tree_leaves(tree)]))
+
     def el_norm(x):
         if jnp.ndim(x) == 0:
             return jnp.abs(x)
